@@ -25,9 +25,13 @@ type cmpLogCase struct {
 	B   string   `json:"b"`
 	// First: where the first text comes from: "file" | "stdout" (the captured output of a cat of the file)
 	First string `json:"first,omitempty"`
+	// Long > 0: both texts start with one more line of that many bytes (a minified or base64 one-liner), the same on
+	// both sides - context of the first change - or, with LongDiffers, different in its last byte
+	Long        int  `json:"long,omitempty"`
+	LongDiffers bool `json:"long_differs,omitempty"`
 }
 
-var cmpWords = []string{"alpha", "beta", "gamma", "x", "", "$A", "${B}", "pre $A post", "a-${B}-z", "v1", "two", "}", "+x", "-x", " x", "$A$A", "@@ -1 +1 @@"}
+var cmpWords = []string{"alpha", "beta", "gamma", "x", "", "$A", "${B}", "pre $A post", "a-${B}-z", "v1", "two", "}", "+x", "-x", " x", "$A$A", "@@ -1 +1 @@", "100%", "%d"}
 var cmpValues = []string{"v1", "alpha", "two", "x", "", "VALUE"}
 
 func expandRef(lines []string, a, b string) []string {
@@ -85,6 +89,18 @@ func checkCmpLog(c cmpLogCase) *vt.Fail {
 			return ""
 		}
 		return strings.Join(ls, "\n") + "\n"
+	}
+	if c.Long > 0 {
+		if c.Long > 300000 {
+			return nil
+		}
+		l1 := strings.Repeat("x", c.Long)
+		l2 := l1
+		if c.LongDiffers {
+			l2 = l1[:c.Long-1] + "y"
+		}
+		c.Old = append([]string{l1}, c.Old...)
+		c.New = append([]string{l2}, c.New...)
 	}
 	cmd := "cmp"
 	want2 := text(c.New)
@@ -157,6 +173,10 @@ func genCmpLog(t *rapid.T) cmpLogCase {
 	}
 	if rapid.IntRange(0, 3).Draw(t, "first") == 0 {
 		c.First = "stdout"
+	}
+	if rapid.IntRange(0, 11).Draw(t, "long") == 5 {
+		c.Long = rapid.SampledFrom([]int{4096, 65534, 65535, 65536, 70000, 140000}).Draw(t, "longlen")
+		c.LongDiffers = rapid.Bool().Draw(t, "longdiffers")
 	}
 	return c
 }
